@@ -651,28 +651,16 @@ impl Server {
                     // Data was read, try to parse all available frames with improved error handling
                     loop {
                         match conn.parse_frame() {
-                            Ok(Some(frame)) => frames_to_process.push(frame),
-                            Ok(None) => break, // No more complete frames
+                            Ok(Some(frame)) => frames_to_process.push(Ok(frame)),
+                            Ok(None) => break, // No more complete frames (incomplete frame: wait for more data)
                             Err(e) => {
-                                // Improved parsing error handling for pipelining
-                                match e {
-                                    FerrousError::Protocol(ref msg) if msg.contains("Need more data") => {
-                                        // Incomplete frame - normal in pipelining, continue
-                                        break;
-                                    },
-                                    FerrousError::Connection(ref msg) if msg.contains("Broken pipe") 
-                                        || msg.contains("Connection reset") => {
-                                        // Hard connection failure
-                                        conn.close()?;
-                                        return Err(e);
-                                    },
-                                    _ => {
-                                        // Other parsing errors - log but don't immediately close connection
-                                        // This improves tolerance for pipelining edge cases
-                                        eprintln!("Parse warning for connection {}: {}", id, e);
-                                        break;
-                                    }
-                                }
+                                // Protocol violation (an incomplete frame is Ok(None), never an error).
+                                // Queue it behind the frames parsed so far so that it is answered, in
+                                // order, with an error reply; the connection is closed afterwards
+                                // because the parser cannot resynchronise on the byte stream.
+                                eprintln!("Protocol error on connection {}: {}", id, e);
+                                frames_to_process.push(Err(e));
+                                break;
                             }
                         }
                     }
@@ -722,7 +710,18 @@ impl Server {
         // Second phase: process frames without the lock
         let mut responses = Vec::new();
         let mut needs_immediate_flush = false; // Track if any command needs immediate response
-        for frame in frames_to_process {
+        for item in frames_to_process {
+            let frame = match item {
+                Ok(frame) => frame,
+                Err(e) => {
+                    // Protocol error: reply with an error and close once replies are sent
+                    responses.push(RespFrame::error(format!("ERR {}", e)));
+                    needs_immediate_flush = true;
+                    should_close = true;
+                    continue;
+                }
+            };
+            
             // Process each frame and increment command counter
             self.stats.total_commands_processed.fetch_add(1, Ordering::Relaxed);
             
@@ -761,7 +760,10 @@ impl Server {
                         
                         // Handle SYNC/PSYNC commands that need connection access
                         if command == "SYNC" || command == "PSYNC" {
-                            sync_response = Some(self.handle_sync_command(&command, parts, id)?);
+                            sync_response = Some(match self.handle_sync_command(&command, parts, id) {
+                                Ok(resp) => resp,
+                                Err(e) => Self::command_error_reply(e)?,
+                            });
                         }
                     }
                 }
@@ -770,7 +772,10 @@ impl Server {
             let response = if let Some(sync_resp) = sync_response {
                 sync_resp
             } else {
-                self.process_frame(frame, id)?
+                match self.process_frame(frame, id) {
+                    Ok(resp) => resp,
+                    Err(e) => Self::command_error_reply(e)?,
+                }
             };
             responses.push(response);
         }
@@ -865,6 +870,17 @@ impl Server {
         }).unwrap_or(Ok(false))?;
         
         Ok(has_pending_writes)
+    }
+    
+    /// Turn an error returned by a command handler into the error reply for that command.
+    /// Only connection-level failures (the peer is gone) are propagated and end the connection;
+    /// everything else (wrong type, bad argument, storage error, ...) is a reply and the
+    /// connection stays usable.
+    fn command_error_reply(e: FerrousError) -> Result<RespFrame> {
+        match e {
+            FerrousError::Connection(_) | FerrousError::Io(_) => Err(e),
+            other => Ok(RespFrame::error(other.to_string())),
+        }
     }
     
     /// Process connections with pending writes
